@@ -91,7 +91,7 @@ def collect(ctx, validated, props):
                 sc = scripts[tid]
                 ctx.violation(clause, klass, {
                     'driver': sc['driver'], 'prog': sc['prog'], 'variant': sc['variant'], 'seed': sc['seed'],
-                    'nsteps': sc['nsteps'], 'mode': sc['mode'], 'failing_step': step,
+                    'nsteps': sc['nsteps'], 'mode': sc['mode'], 'failing_step': step, 'i': sc.get('i', 0),
                     'event': {k: ev[k] for k in ev if k != 'post'},
                     'script': sc['script'][:step],
                 }, detail=json.dumps({k: ev[k] for k in ('op', 'kind', 'field', 'exc', 'msg', 'codeform') if k in ev}))
@@ -114,8 +114,14 @@ def collect(ctx, validated, props):
 def replay(ctx, path, props):
     with open(path) as f:
         rp = json.load(f)
-    spec = (1, rp['seed'], rp['prog'], rp['variant'], rp['nsteps'])
-    res = [_shard((0, [spec], {'mode': rp.get('mode', 'mixed')}))]
+    if rp.get('driver') == 'sweep':
+        from harness import sweep
+        tab = sweep.emit_table()
+        item = (1, rp['seed'], rp['mode'], rp['prog'], rp['variant'], rp.get('i', 0))
+        res = [_shard_sweep((0, [item], {'rows': tab['rows'], 'argrows': tab['argrows']}))]
+    else:
+        spec = (1, rp['seed'], rp['prog'], rp['variant'], rp['nsteps'])
+        res = [_shard((0, [spec], {'mode': rp.get('mode', 'mixed')}))]
     validated = validate_all(ctx, res)
     collect(ctx, validated, props)
     for batch, scripts, verd in validated:
@@ -127,3 +133,76 @@ def replay(ctx, path, props):
         print('=>', step['exc'] or '')
         print(step['post_src'])
     return ctx.finish()
+
+
+# ----------------------------------------------------------------------------------------------------------------------
+# (G) systematic sweep: TLC-generated request table x container catalogue
+
+def _shard_sweep(args):
+    shard_id, items, tab = args
+    import random
+    from harness import edits, sweep, catalogue
+    rec = edits.Recorder()
+    traces, scripts = [], {}
+    for tid, seed, kind, name, ridx, i in items:
+        rng = random.Random(seed)
+        if kind == 'row':
+            src, plan = sweep.row_plan(catalogue.BY_NAME[name], tab['rows'][ridx], i, rng)
+        else:
+            src, plan = sweep.argrow_plan(tab['argrows'][ridx], i, name)
+        tr = sweep.run_single(rec, tid, seed, src, plan)
+        scripts[tid] = {'driver': 'sweep', 'prog': name, 'variant': ridx, 'seed': seed, 'nsteps': 1, 'mode': kind,
+                        'i': i, 'script': tr.pop('script')}
+        traces.append(tr)
+    return dict(rec.tab.dump(), traces=traces), scripts
+
+
+def sweep_items(ctx, tab, per_template, n_arg, base=1000000):
+    import random
+    from harness import catalogue
+    rng = random.Random(ctx.seed * 7 + 3)
+    items = []
+    tid = base
+    for t in catalogue.TEMPLATES:
+        idxs = [k for k, r in enumerate(tab['rows']) if r['lo'] == t.lo and r['len'] - r['lo'] >= t.minlen]
+        if per_template and per_template < len(idxs):
+            # stratified: keep every ill-formed class represented, sample the rest
+            idxs = rng.sample(idxs, per_template)
+        for i, k in enumerate(idxs):
+            tid += 1
+            items.append((tid, rng.randrange(1 << 30), 'row', t.name, k, i))
+    aidx = list(range(len(tab['argrows'])))
+    if n_arg and n_arg < len(aidx):
+        aidx = rng.sample(aidx, n_arg)
+    for i, k in enumerate(aidx):
+        for klass in ('Call', 'ClassDef'):
+            tid += 1
+            items.append((tid, rng.randrange(1 << 30), 'arg', klass, k, i))
+    return items
+
+
+def run_sweep(ctx, per_template, n_arg, props, nproc=14):
+    """Emit the table with TLC, check spec = Python list on every row, replay the sample into pfst, validate."""
+    from harness import sweep
+    tab = sweep.emit_table()
+    ctx.states += max(1, tab['_stats']['distinct'])
+    ctx.transitions += len(tab['rows']) + len(tab['argrows'])
+    bad = sweep.spec_agrees_with_python(tab)
+    if bad:
+        raise common.Machinery(f'ContainersGen.tla disagrees with Python list semantics on {len(bad)} rows, e.g. {bad[0]}')
+    ctx.extra['table_rows'] = len(tab['rows'])
+    ctx.extra['table_argrows'] = len(tab['argrows'])
+    ctx.extra['table_rows_equal_python_list'] = len(tab['rows'])
+    items = sweep_items(ctx, tab, per_template, n_arg)
+    slim = {'rows': tab['rows'], 'argrows': tab['argrows']}
+    nshards = max(1, min(nproc, len(items) // 50 or 1))
+    shards = [(k, items[k::nshards], slim) for k in range(nshards)]
+    if nshards == 1:
+        res = [_shard_sweep(shards[0])]
+    else:
+        with mp.get_context('fork').Pool(nshards) as pool:
+            res = pool.map(_shard_sweep, shards)
+    val = validate_all(ctx, res)
+    collect(ctx, val, props)
+    ctx.extra['sweep_requests_replayed'] = len(items)
+    return len(items)
